@@ -325,7 +325,24 @@ func (w *Worker) client(name, src string) *Client {
 func (w *Worker) apply(st *Stim) {
 	switch st.Op {
 	case "open":
-		w.client(st.C, st.Src)
+		if c := w.client(st.C, st.Src); c != nil {
+			// the proxy accepts the connection in an iteration of its own; wait for that (bounded), so that what the
+			// client writes next is read through the connection like any other write
+			for k := 0; k < 200 && !w.Dead; k++ {
+				acc := false
+				for _, pc := range core.VerifSnapshot(false).Conns {
+					if pc.Kind == "c" && pc.Remote == c.Local {
+						acc = true
+					}
+				}
+				if acc {
+					break
+				}
+				if !w.iterate(2*time.Millisecond) && k >= 3 {
+					break // nothing is happening any more (an address that is not admitted is closed at once, unseen)
+				}
+			}
+		}
 	case "send", "raw":
 		c := w.client(st.C, "")
 		if c == nil || c.Closed {
